@@ -223,6 +223,12 @@ impl Case {
         }
     }
     pub fn json_with(&self, prop: &str, vals: &[f32]) -> Value {
+        if vals.len() > 8192 {
+            if let Vals::Seeded { stratum, seed, n } = &self.vals {
+                return json!({"prop": prop, "transfer": tc_name(self.t), "dir": if self.dir == Dir::ToLinear {"to_linear"} else {"to_gamma"},
+                    "mates": self.mates.map(|m| m.to_string()), "seeded": {"stratum": stratum, "seed": seed.to_string(), "n": n}});
+            }
+        }
         json!({"prop": prop, "transfer": tc_name(self.t), "dir": if self.dir == Dir::ToLinear {"to_linear"} else {"to_gamma"},
                "mates": self.mates.map(|m| m.to_string()),
                "values": vals.iter().map(|v| f2j(*v)).collect::<Vec<_>>()})
@@ -231,7 +237,10 @@ impl Case {
         Some(Case {
             t: tc_from_name(v.get("transfer")?.as_str()?)?,
             dir: if v.get("dir")?.as_str()? == "to_linear" { Dir::ToLinear } else { Dir::ToGamma },
-            vals: Vals::Explicit(v.get("values")?.as_array()?.iter().filter_map(j2f).collect()),
+            vals: match v.get("seeded") {
+                Some(sd) => Vals::Seeded { stratum: sd.get("stratum")?.as_u64()? as u8, seed: sd.get("seed")?.as_str()?.parse().ok()?, n: sd.get("n")?.as_u64()? as usize },
+                None => Vals::Explicit(v.get("values")?.as_array()?.iter().filter_map(j2f).collect()),
+            },
             mates: v.get("mates").and_then(|m| m.as_str()).and_then(|m| m.parse().ok()),
         })
     }
@@ -398,8 +407,42 @@ pub fn sweep(ctx: &Ctx, st: &mut Stats, prop: &'static str, stride: u64, chk: fn
     })
 }
 
+/// images of 65536+ pixels (size-gated / threaded paths): one per curve and direction, pixel counts that
+/// are divisible by no small number
+pub fn large_images(ctx: &Ctx, st: &mut Stats, prop: &'static str, chk: fn(&str, &Case, &mut Stats) -> Result<(), Violation>, dirs: &[Dir]) -> Vec<Violation> {
+    let curves: Vec<TC> = if ctx.light { vec![TC::BT1886, TC::SRGB, TC::PerceptualQuantizer, TC::HybridLogGamma] } else { SUP_TC.to_vec() };
+    let mut jobs = Vec::new();
+    for t in curves {
+        for &d in dirs {
+            jobs.push((t, d));
+        }
+    }
+    let seed0 = ctx.seed;
+    par_sweep(ctx, st, jobs.len() as u64, |lo, hi, st| {
+        for j in lo..hi {
+            let (t, d) = jobs[j as usize];
+            let pixels = [65_537usize, 131_101, 262_147][(j % 3) as usize];
+            let case = Case { t, dir: d, vals: Vals::Seeded { stratum: (j % 2) as u8, seed: mix64(seed0 ^ j ^ 0xB16), n: pixels * 3 }, mates: None };
+            let mut local = Stats::new();
+            local.sample_budget = 0;
+            if let Err(v) = chk(prop, &case, &mut local) {
+                return Some(v);
+            }
+            st.evaluations += 1;
+            st.comparisons += local.comparisons;
+            st.nontrivial_by_construction += 1;
+            st.class("large_images", 1);
+        }
+        None
+    })
+}
+
 pub fn run(ctx: &Ctx, st: &mut Stats) -> Vec<Violation> {
     let mut v = run_proptest(ctx, st, "random", ctx.cases(12_000, 120_000), strategy, check);
+    if !v.is_empty() {
+        return v;
+    }
+    v.extend(large_images(ctx, st, "C03", check_named, &[Dir::ToLinear, Dir::ToGamma]));
     if !v.is_empty() {
         return v;
     }
@@ -418,4 +461,4 @@ pub fn replay(v: &Value) -> Result<(), String> {
     check(&case, &mut Stats::new()).map_err(|v| v.message)
 }
 
-pub const RULE: &str = "cases = (curve in 14 supported, direction, batch of 1..768 values of [0,1] from 8 strata: uniform value, uniform bit pattern, +-64 ulp around every curve threshold, powers of two +-4 ulp, subnormal/tiny, dense below 1, feedback chain (each value is the library's result for the previous one), runs of repeated values; in a quarter of the cases each checked value sits in a pixel whose other two components are out-of-range mates) generated by proptest, plus a strided (quick) or complete (thorough) enumeration of all f32 in [0,1] in blocks of 65536; each value compared with the f64 defining formula (tol 2.5e-4; PQ to_gamma 5.7e-4; builds without fastmath 5e-5), Linear and BT.1886 aliases compared bitwise; non-trivial = batch containing a value strictly inside (0,1); distinct = by hash of (curve, direction, value bits)";
+pub const RULE: &str = "cases = (curve in 14 supported, direction, batch of 1..768 values of [0,1] from 8 strata: uniform value, uniform bit pattern, +-64 ulp around every curve threshold, powers of two +-4 ulp, subnormal/tiny, dense below 1, feedback chain (each value is the library's result for the previous one), runs of repeated values; in a quarter of the cases each checked value sits in a pixel whose other two components are out-of-range mates) generated by proptest, plus one image of 65537 / 131101 / 262147 pixels per curve and direction, plus a strided (quick) or complete (thorough) enumeration of all f32 in [0,1] in blocks of 65536; each value compared with the f64 defining formula (tol 2.5e-4; PQ to_gamma 5.7e-4; builds without fastmath 5e-5), Linear and BT.1886 aliases compared bitwise; non-trivial = batch containing a value strictly inside (0,1); distinct = by hash of (curve, direction, value bits)";
